@@ -26,7 +26,7 @@ func init() {
 		Rule: "aliasing (normal build): generated streams demultiplexed with NextPacket/NextData; every result is deep-copied at delivery and re-compared after each later call (last 16) and at the end, while a second " +
 			"Demuxer on another stream advances in lock-step, the GC recycles the sync.Pool, and the input buffer is finally overwritten; Muxer inputs (payload, descriptor bytes) snapshotted and re-compared " +
 			"after every call. Concurrency (-race build): N in {2,4,8,16,32,64} goroutines each owning a Demuxer or Muxer on its own stream, results compared with solo runs, race detector log scanned; " +
-			"plus 110 000..400 000 packet streams with payloads of every size, each packet kept for 8192 (thorough 70 000) further calls and compared with the stream bytes (stage alias-endurance); 2..4 Demuxers on readers of every kind called in turns, each compared with its solo run (demux-lockstep); units shorter than a start code after other instances have loaded the pooled buffers (tiny-units); byte slices kept without the structures they came in, across garbage collections and finalizers (alias-leaves); Muxer alias sessions on a writer that runs out of room; distinct = hash(stream(s), mode); non-trivial = ≥2 results snapshotted or ≥2 goroutines ran",
+			"plus 110 000..400 000 packet streams with payloads of every size, each packet kept for 8192 (thorough 70 000) further calls and compared with the stream bytes (stage alias-endurance); 2..4 Demuxers on readers of every kind called in turns, each compared with its solo run, a quarter of the cases with one Demuxer holding a set of packets ready while the others read tables of the same PID, counter and size (demux-lockstep); units shorter than a start code after other instances have loaded the pooled buffers (tiny-units); byte slices kept without the structures they came in, across garbage collections and finalizers (alias-leaves); Muxer alias sessions on a writer that runs out of room; distinct = hash(stream(s), mode); non-trivial = ≥2 results snapshotted or ≥2 goroutines ran",
 		Assumptions: []string{"the schedules are those the Go scheduler produced under Gosched/GC pressure; the number of observed goroutine switch points is reported and guarded",
 			"the Muxer is allowed to touch documented struct fields of MuxerData (StuffingLength, StreamID); only payload and descriptor bytes are protected"},
 		Shards:     16,
@@ -546,6 +546,10 @@ func demuxLockstepCase(c *mon.Ctx, idx int64, r *rand.Rand) {
 		}
 		return deepString(v), false
 	}
+	crafted, craftedCC := idx%4 == 3, uint8(r.IntN(16))
+	if crafted {
+		c.Count("lockstep_cases_with_a_set_held_ready_between_calls")
+	}
 	ds := make([]*dx, n)
 	for k := range ds {
 		var in []byte
@@ -557,6 +561,12 @@ func demuxLockstepCase(c *mon.Ctx, idx int64, r *rand.Rand) {
 			}
 		}
 		cfg := DemuxCfg{API: []string{"data", "packet"}[r.IntN(2)], PacketSize: []int{0, 0, 188}[r.IntN(3)]}
+		if crafted {
+			// the first Demuxer holds a second set of packets ready between two of its calls (a table with an enlarged
+			// section_length pending, flushed by a one-packet table that is complete itself) while the others read one-packet
+			// tables of the same PID, continuity counter and size
+			in = readyPairStream(r, craftedCC, k)
+		}
 		switch r.IntN(5) {
 		case 0:
 			cfg.Reader = "seek"
@@ -567,6 +577,9 @@ func demuxLockstepCase(c *mon.Ctx, idx int64, r *rand.Rand) {
 		default:
 			cfg.Reader, cfg.BufioSize = "bufio", []int{16, 64, 192}[r.IntN(3)]
 			c.Count("lockstep_demuxers_on_small_bufio_readers")
+		}
+		if crafted {
+			cfg = DemuxCfg{API: "data", PacketSize: 188, Reader: "seek"}
 		}
 		d := &dx{in: in, cfg: cfg}
 		sd, _ := NewDemuxerFor(in, cfg)
@@ -584,7 +597,11 @@ func demuxLockstepCase(c *mon.Ctx, idx int64, r *rand.Rand) {
 		for left := n; left > 0; {
 			left = 0
 			for _, d := range ds {
-				for q := 0; q < 1+r.IntN(3) && !d.done; q++ {
+				turn := 1 + r.IntN(3)
+				if crafted {
+					turn = 1
+				}
+				for q := 0; q < turn && !d.done; q++ {
 					s, end := one(d.dmx, d.cfg.API)
 					d.calls++
 					if end || d.calls > len(d.in)+64 {
@@ -1227,4 +1244,28 @@ func leavesCase(c *mon.Ctx, idx int64, r *rand.Rand) {
 	c.Add("byte_slices_kept_without_their_structure", int64(len(leaves)))
 	c.Count("leaf_runs")
 	c.Case(mon.HashBytes("leaves", in[:376]), len(leaves) >= 2)
+}
+
+// readyPairStream: one-packet PATs on PID 0 with continuity counters cc+1, cc+2, ...; for k == 0 preceded by a PAT (counter cc) whose
+// section_length was enlarged, so that it stays pending until the next one arrives.
+func readyPairStream(r *rand.Rand, cc uint8, k int) []byte {
+	mk := func(serial int) []byte {
+		sec := gen.SimpleSection(r, refts.KindPAT, serial, 0)
+		sec.Syntax.Data.PAT.Programs = []*astits.PATProgram{{ProgramNumber: uint16(1 + k), ProgramMapID: uint16(0x100 + 0x10*k + serial)}}
+		return gen.NewPSIUnit(r, 0, serial, []*astits.PSISection{sec}, 0, false).Payload
+	}
+	var out []byte
+	put := func(c uint8, payload []byte) {
+		b, _ := refts.EncodePacket(gen.BuildPacket(0, c&15, true, payload, nil, true), nil)
+		out = append(out, b...)
+	}
+	if k == 0 {
+		dam := mk(1)
+		dam[2] |= 0x01 + byte(r.IntN(3)) // section_length beyond the end of the packet: the unit never looks complete
+		put(cc, dam)
+	}
+	for q := 1; q <= 3; q++ {
+		put(cc+uint8(q), mk(1+q))
+	}
+	return out
 }
